@@ -300,7 +300,7 @@ func c10Names(ops []int) []string {
 
 func runC10(c *vx.Ctx) {
 	core.VScaleParams(core.VR1)
-	c.Rule = "all ordered pairs of distinct applicable branches (sequences of block contents from {empty, two conflicting spends of a pre-fork output, spend of another output, spend of a branch-created/trimmable output, Quai transfer}) from a common 14-block prefix; 3 head switches per pair; outcome class = (ops of A, ops of B) shape x verdict"
+	c.Rule = "all ordered pairs of distinct applicable branches (sequences of block contents from {empty, two conflicting spends of a pre-fork output, spend of another output, spend of a branch-created/trimmable output, Quai transfer}) from a common 14-block prefix; 3 head switches per pair; outcome class = (ops of A, ops of B) shape x verdict; block contents include two foreign-miner blocks assembled with recomputed declared results (in-block chained spend; one outpoint twice); lockups: sibling blocks at every height that touches contract lockup records; map-order: one-block branch pairs under 12 fixed map-iteration draws"
 	c.Assume("scaled protocol constants: " + fmt.Sprint(core.VScaled))
 	c.Assume("branches consist of zone-order blocks (the reorganisation under test is the zone HeaderChain.SetCurrentHeader); the prefix contains region and prime blocks")
 	maxLen, rounds := 2, 2
